@@ -184,7 +184,15 @@ def run(ck, prog, ctx):
                 at = pvn.of_operand(fb, x.discr)
                 if not any(a[0] == "call" and a[1].endswith("HpoGroup::is_empty") for a in at):
                     continue
-                full = pv.of_operand(fb, x.discr)
+                full = set(pv.of_operand(fb, x.discr))
+                # the group operators are taken as what they are (a result drawn from both operands), whatever their body looks like today
+                # (a loop, an iterator chain with `for_each`, a merge): their operands are followed as well
+                for a_ in list(at):
+                    if a_[0] == "call" and re.search(r"(BitAnd|BitOr|Add|Sub)>?::(bitand|bitor|add|sub)$", a_[1]) and "HpoGroup" in a_[1] and a_[3] in prog.bodies:
+                        ob_ = prog.bodies[a_[3]]
+                        ot_ = ob_.blocks[a_[4]].term
+                        for arg_ in ot_.args:
+                            full |= set(pv.of_operand(ob_, arg_))
                 ks = {k for k, _ in atom_kinds(full)}
                 fam_ids = {x_.id for x_ in prog.family(sub)}
                 filtered = any(a[0] == "call" and a[1].endswith("::filter") and a[3] in fam_ids for a in full)
